@@ -329,7 +329,8 @@ static Prog make_program(vh::Rng& rng, std::string& descr, bool io, int force_ki
     std::vector<unsigned> irqs = {10u, 9u, 14u, 3u, 11u};
     if (dmak) irqs.push_back(15u);
     for (unsigned irq : irqs) {
-        unsigned c = flavour == 2 ? (rng.chance(1, 2) ? 3 : rng.below(3)) : rng.below(6);
+        // (c == 5: the source is routed nowhere -- its request bit rises, the core sleeps on)
+        unsigned c = flavour == 2 ? (rng.chance(1, 5) ? 5 : rng.chance(1, 2) ? 3 : rng.below(3)) : flavour == 3 ? (rng.chance(1, 2) ? 5 : rng.below(5)) : rng.below(6);
         if (c < 3) en[c] |= 1u << irq;
         else if (c == 3) ven |= 1u << irq;
         else if (c == 4) { en[rng.below(3)] |= 1u << irq; ven |= 1u << irq; }
@@ -349,10 +350,14 @@ static Prog make_program(vh::Rng& rng, std::string& descr, bool io, int force_ki
         u32 st = flavour == 2 ? shorts[rng.below(6)] : flavour == 3 ? longs[rng.below(11)] : starts[rng.below(sizeof(starts) / sizeof(starts[0]))];
         p.mmio_write(0x24 + 0x10 * i, st & 0xFFFF);
         p.mmio_write(0x26 + 0x10 * i, st >> 16);
-        unsigned mode = (flavour == 2 || flavour == 3) && rng.chance(2, 3) ? 1 : rng.below(4);
+        unsigned mode = (flavour == 2 || flavour == 3) ? (rng.chance(1, 2) ? 1 : rng.chance(1, 2) ? 2 : rng.below(4)) : rng.below(4);   // auto-restart, free-running, any
         u16 cfg = (mode << 2) | (flavour != 2 && rng.chance(1, 8) ? 0x100 : 0) | (rng.chance(2, 3) ? 0x200 : 0) | (flavour == 2 || rng.chance(4, 5) ? 0x400 : 0);
         p.mmio_write(0x20 + 0x10 * i, cfg);
         if (mode == 3 && rng.chance(1, 2)) p.mmio_write(0x22 + 0x10 * i, 1);
+        // now and then the mode is changed afterwards WITHOUT a restart: the counter goes on from where it is under the new
+        // rules (a loaded single-shot timer turned free-running runs down to 0 and wraps, ...)
+        if (rng.chance(1, flavour == 3 ? 2 : flavour == 2 ? 3 : 6))
+            p.mmio_write(0x20 + 0x10 * i, (u16)(((flavour == 3 && rng.chance(1, 2) ? 2 : rng.below(3)) << 2) | (cfg & 0x300)));
     }
     u16 late_en[2] = {0, 0};      // port enabled as the very last thing before the main loop (the queue is still as filled)
     if (io) {   // audio ports and mailbox configuration
@@ -779,7 +784,29 @@ int main(int argc, char** argv) {
             o.begin(); o.str("e", "Load"); o.raw("w", lw + "]"); o.end();
             verif_mem_observer = &in.log;
             bool dead = false;
-            for (unsigned n : sl) {
+            // The planned slices are run in order; now and then a slice is SPLIT so that a boundary falls on (or right next to)
+            // the cycle in which a timer counter or an audio phase reaches its event -- the run loop's fast-forward then starts
+            // from exactly those states (counter 0, phase = period - 1).  This only chooses where the host calls Run again.
+            std::vector<unsigned> plan(sl.rbegin(), sl.rend());      // back() is the next planned slice
+            vh::Rng arng(host_seed ^ 0x5EEDA11Cull);
+            while (!plan.empty()) {
+                unsigned n = plan.back(); plan.pop_back();
+                if (a.mode != "step" && n > 2 && &sl != &slicings[0] && arng.chance(2, 3)) {   // (the first slicing stays in one piece)
+                    // the nearest counter-reaches-zero / frame tick that falls inside this slice
+                    u64 ev_in = 0;
+                    for (int pick = 0; pick < 4; ++pick) {
+                        u64 e = 0;
+                        if (pick < 2) { const Timer& tmr = in.impl().timer[pick]; if (tmr.counter > 0 && tmr.count_mode != Timer::CountMode::EventCount && !tmr.pause) e = tmr.counter; }
+                        else { Btdmp& b = in.impl().btdmp[pick - 2]; u16 pd = TeakraVerifAccess::transmit_period(b), tm = TeakraVerifAccess::transmit_timer(b);
+                               if (TeakraVerifAccess::transmit_enable(b) && pd > tm) e = pd - tm; }
+                        if (e > 2 && e + 1 < n && (ev_in == 0 || e < ev_in)) ev_in = e;
+                    }
+                    if (ev_in > 2) {
+                        static const int off[] = {-2, -1, -1, 0, 1};   // the next call starts 2 / 1 / 1 / 0 cycles before the event, or 1 after
+                        u64 cut = ev_in + off[arng.below(5)];
+                        if (cut >= 1 && cut < n) { plan.push_back((unsigned)(n - cut)); n = (unsigned)cut; }
+                    }
+                }
                 if (dead) break;
                 in.log.written.clear();
                 const char* out = "ok";
